@@ -357,6 +357,22 @@ def main(argv):
             print('self-test mutants for %s: %d caught, %d skipped, %d missed' % (
                 prop, sum(r['status'] == 'caught' for r in res), sum(r['status'] == 'skipped' for r in res),
                 sum(r['status'] in ('MISSED', 'broken-mutant') for r in res)))
+            # false-alarm guard: behaviour-preserving refactors of this property's area must leave this check silent
+            import run_refactors as rf_run
+            from refactors import REFACTORS
+            mine = [r for r in REFACTORS if (r.get('props') and prop in r['props']) or r['id'].startswith('agent-%s-' % prop)]
+            import concurrent.futures as _cf
+            def _one(rf):
+                return rf_run.run_one(dict(rf, props=[prop]))
+            with _cf.ThreadPoolExecutor(max_workers=6) as ex:
+                rres = list(ex.map(_one, mine))
+            for r in rres:
+                ctx.selftests.append({'mutant': 'refactor:' + r['id'], 'status': r['status'], 'detail': (r.get('why') or '')[:200]})
+                if r['status'] == 'FALSE-ALARM':
+                    print('SELFTEST-WARNING: behaviour-preserving refactor %s is reported (%s) — the rule is tied to code shape' % (r['id'], r.get('why', '')[:200]))
+            print('refactor guard for %s: %d silent, %d reported, %d not applicable' % (
+                prop, sum(r['status'] == 'silent' for r in rres), sum(r['status'] == 'FALSE-ALARM' for r in rres),
+                sum(r['status'] not in ('silent', 'FALSE-ALARM') for r in rres)))
         except Exception as e:  # noqa
             print('self-test runner unavailable: %s' % e)
     known = load_known()
